@@ -100,7 +100,7 @@ def _same(a, b, atol=1e-9, rtol=1e-9):
     """Cross-cell equality: exact for strings/ints, tolerant for floats, recursive for lists/dicts."""
     if isinstance(a, float) or isinstance(b, float):
         try:
-            if a != a and b != b:
+            if (a != a and b != b) or a == b:
                 return True
             return abs(a - b) <= atol + rtol * abs(b)
         except Exception:
@@ -236,7 +236,8 @@ def _run(args, prop, tier, seed, mod, plan, outdir, t0):
             xcell_compared += 1
             first = vals[0][0]
             for (val, j, r) in vals[1:]:
-                if not _same(val, first):
+                tol = 2e-6 if "torch" in (j["backend"], vals[0][1]["backend"]) else 1e-9
+                if not _same(val, first, tol, tol):
                     vio = {"key": f"xcell:{k}", "what": f"answer digest for '{k}' differs between cells "
                            f"{vals[0][1]['hashseed']}/{vals[0][1]['backend']} and {j['hashseed']}/{j['backend']}",
                            "detail": {"a": first, "b": val}}
